@@ -72,3 +72,16 @@ Theorem gen_system_from_generated_init (E : env) fuel hs t0 en ops s rs :
   ops_wt E fuel hs (gen_init t0 en) ops -> run E fuel hs (gen_init t0 en) ops = (s, rs) -> ~ In NoFuel rs ->
   exists g, gen_run E fuel hs (gen_init t0 en) ops = (g, map oc_of rs) /\ eqst g s.
 Proof. rewrite gen_init_is_init. apply gen_run_is_model. Qed.
+(* the hypotheses of the constructor theorems are met by the state the builder allocates the fresh object in *)
+Example gen_countdown_ctor_nonvacuous (E : env) (R : jrec) :
+  let s := set_job 0 (gen_countdown_init_pre 7) (gen_init 100 true) in
+  jobs s 0%nat = gen_countdown_init_pre 7 /\
+  g_set_countdown E R 0 5000000000 s = Some (set_job 0 (new_job KCountdown 0 5000000000 7) s, JRet) /\
+  g_set_countdown E R 0 0 s = Some (s, JExc (JErr EValueError)).
+Proof.
+  cbv zeta.
+  assert (H : jobs (set_job 0 (gen_countdown_init_pre 7) (gen_init 100 true)) 0%nat = gen_countdown_init_pre 7) by reflexivity.
+  split; [exact H|]. split.
+  - rewrite (gen_countdown_ctor_dispatch E R _ _ _ _ H). apply (gen_countdown_ctor_ok E R _ _ _ _ H). lia.
+  - rewrite (gen_countdown_ctor_dispatch E R _ _ _ _ H). apply (gen_countdown_ctor_rejects E R _ _ _ _ H). lia.
+Qed.
